@@ -323,6 +323,10 @@ int main(int argc, char **argv) {
       for (int K : {1, 3}) for (int f : {11, 5}) { Cfg g; g.mask = m; g.N = N; g.fmode = f; g.K = K; g.origin = true; unit_do(g); }   // state exactly 0 at a sample (identity spatial map)
       if (th) for (int K : {7, 49, 64}) { Cfg g; g.mask = m; g.N = N; g.K = K; g.fmode = 9; g.rho = 0.0009765625; unit_do(g); }
     }
+    // (d) long problems: segment counts around powers of two (executor chunking, blocked loops) and (e) EVERY step count K = 1..70 of the
+    //     quadrature on one small problem (a weight or step that is wrong for one particular K)
+    for (int N : {8, 9, 15, 16, 17, 32, 33}) for (unsigned m : {0u, 255u}) { if (!th && (N == 9 || N == 15)) continue; Cfg g; g.mask = m; g.N = N; g.fmode = 8; g.rho = 0.25; g.K = 3; unit_do(g); }
+    for (int K = 1; K <= 70; ++K) { Cfg g; g.mask = 0x5a; g.N = 2; g.fmode = 8; g.rho = 0.25; g.K = K; unit_do(g); }
     // (c) thorough: full product of the configuration axes for N <= 3, DIM <= 2
     if (th && D <= 3) for (int N = 1; N <= 3; ++N) for (unsigned m = 0; m < 256; ++m) for (int tm = 0; tm < 3; ++tm) for (int sm = 0; sm < 4; ++sm) for (int f : {8, 9, 10}) for (double rho : {0.0, 0.25}) for (int K : {1, 3}) { Cfg g; g.mask = m; g.N = N; g.tm = tm; g.sm = sm; g.fmode = f; g.rho = rho; g.K = K; unit_do(g); }
   });
